@@ -1169,7 +1169,9 @@ EXPORT errno_t _wcsnorm_s_chk(wchar_t *restrict dest, rsize_t dmax,
         return RCNEGATE(ESNOSPC);
     }
 
-    rc = _wcsnorm_reorder_s_chk(tmp_ptr, len + 2, dest, len, destbos);
+    /* the object size belongs to tmp_ptr here, not to dest */
+    rc = _wcsnorm_reorder_s_chk(tmp_ptr, len + 2, dest, len,
+                                (len + 2) * sizeof(wchar_t));
     if (unlikely(rc)) {
         if (tmp)
             free(tmp);
